@@ -693,7 +693,7 @@ func init() {
 			}
 			return cs
 		},
-		Rule: "kinds: load (Secret/ConfigMap manifests with metadata/extra fields, text items incl. multi-line/unicode/numeric-looking/empty, binary items of 0-17 arbitrary bytes; 1/4 malformed: missing or non-string or unsupported kind, non-string or non-base64 binary value, section that is not a map: error or manifest, never a panic; plus a fixed corpus of 122 hostile manifests — every kind of non-string value in every section of both kinds, non-map sections, odd kinds — through ManifestFromBytes, Properties, YamlDoc and JsonDoc), save (load, with manifests of both kinds loaded and written in between, 0-6 Update/Remove on both facades, WriteTo, control decode + reload: item maps, non-data fields, section placement and base64), embedded-0/1/2 (YAML / JSON / properties document inside a ConfigMap on a temp file: 1-6 edits, Save, reopen, other items untouched), create (NewBuilder().Create of either kind with/without namespace, embedded properties edited, saved, reopened; kind/name/namespace in the written file), b64-enc / b64-dec (Go StdEncoding vs the Coq model on edge lengths and corrupted inputs). Non-trivial: manifest has both sections and extra fields / >= 2 edits. Distinct by Gallina term or (format,start,edits). Text items with CR LF line ends; empty top-level mappings/lists outside the data sections. A WriteTo into a failing writer before the real one; binary items of 4097/4098 bytes; one item name used on both data interfaces. Embedded properties with lists of groups below a group; every pair removed before a Save.",
+		Rule: "kinds: load (Secret/ConfigMap manifests with metadata/extra fields, text items incl. multi-line/unicode/numeric-looking/empty, binary items of 0-17 arbitrary bytes; 1/4 malformed: missing or non-string or unsupported kind, non-string or non-base64 binary value, section that is not a map: error or manifest, never a panic; plus a fixed corpus of 122 hostile manifests — every kind of non-string value in every section of both kinds, non-map sections, odd kinds — through ManifestFromBytes, Properties, YamlDoc and JsonDoc), save (load, with manifests of both kinds loaded and written in between, 0-6 Update/Remove on both facades, WriteTo, control decode + reload: item maps, non-data fields, section placement and base64), embedded-0/1/2 (YAML / JSON / properties document inside a ConfigMap on a temp file: 1-6 edits, Save, reopen, other items untouched), create (NewBuilder().Create of either kind with/without namespace, embedded properties edited, saved, reopened; kind/name/namespace in the written file), b64-enc / b64-dec (Go StdEncoding vs the Coq model on edge lengths and corrupted inputs). Non-trivial: manifest has both sections and extra fields / >= 2 edits. Distinct by Gallina term or (format,start,edits). Text items with CR LF line ends; empty top-level mappings/lists outside the data sections. A WriteTo into a failing writer before the real one; binary items of 4097/4098 bytes; one item name used on both data interfaces. Embedded properties with lists of groups below a group; every pair removed before a Save. Every 150th case: one configured builder opens two manifests, the first document is saved.",
 		Gen: func(r *rand.Rand, tier string, idx int) Case {
 			if idx%150 == 11 {
 				return c17BuilderReuse(r, idx)
